@@ -2,16 +2,13 @@
    syntax tree [file_of] (types in the model's order, relations in name order, each definition the printer's normal form)
    followed by one line feed. *)
 From Coq Require Import Lia Permutation.
-From Verif Require Import Base.Str Base.Outcome Model.Ast Model.Token Gen.Keywords Model.Lexer Model.Parser Model.Printer
+From Verif Require Import Spec.DocDomain Base.Str Base.Outcome Model.Ast Model.Token Gen.Keywords Model.Lexer Model.Parser Model.Printer
   Spec.Sem Spec.Expressible Spec.Normalize Proofs.PrinterExpressible Proofs.ListenerSem Proofs.RoundTrip Proofs.Lossless Proofs.SortFacts
   Proofs.ParserComplete Proofs.LosslessTokens Proofs.LexInversion Proofs.LexRender Proofs.RoundTripChars Proofs.DeclRoundTrip Proofs.DocLex
   Proofs.DocParse Proofs.DocChars Proofs.PrepassTidy Proofs.DocTidy Proofs.DocPrepass.
 
-Definition u_of (td : typedef) (n : str) : userset := match assoc n (td_rels td) with Some u => u | None => UUnset end.
-Definition refs_of (td : typedef) (n : str) : list relation_ref := rm_types_of (assoc n (td_meta_rels td)).
 Definition decl_of (td : typedef) (n : str) : reldecl :=
   {| rl_name := name_tok n; rl_def := rdef_of (refs_of td n) (u_of td n) |}.
-Definition sorted_names (td : typedef) : list str := stable_sort str_compare (keys (td_rels td)).
 Definition type_of (td : typedef) : typedecl :=
   {| ty_extend := false; ty_name := name_tok (td_name td); ty_rels := map (decl_of td) (sorted_names td) |}.
 Definition file_types (m : model) : list typedecl := map type_of (m_types m).
